@@ -8,10 +8,15 @@ from specs import axmlwriter as W, resvalue as RV
 
 AXML = "androguard/core/axml/__init__.py"
 META = {
-    "technique": 'contract-based deductive verification: symbolic execution of the real functions against sidecar contracts (z3/cvc5) for the proved units; bounded contract evaluation (enumerated scope / independent writer) for the rest',
+    "technique": 'contract-based deductive verification: symbolic execution of the real functions against sidecar contracts (z3/cvc5) for the proved units, inductive loop invariants on the real loops (unbounded in length and iteration count); bounded contract evaluation (enumerated scope / independent writer) for the rest',
     "level": "other",
     "partial": True,
-    "level_text": "Proof (string pool carriers): StringBlock._decode_length equals AOSP's decodeLength for every 2-unit prefix in 8-bit "
+    "level_text": "Loop contracts (unbounded): the attribute loops of AXMLParser._do_next for a START_ELEMENT chunk with any attribute "
+                  "count (0..65535) and any attributeSize >= 20 in a file of any length: attribute a is read at attributeStart + a * "
+                  "attributeSize (five words, the typed-value word reduced to its data type), the parser ends at the end of the "
+                  "chunk. Proof: one arbitrary step of the pull parser on symbolic chunks of every kind (START_ELEMENT with 0..3 "
+                  "attributes and symbolic attributeSize, END_ELEMENT, CDATA, namespaces, resource map, foreign / malformed chunks, "
+                  "end of file). Proof (string pool carriers): StringBlock._decode_length equals AOSP's decodeLength for every 2-unit prefix in 8-bit "
                   "and 16-bit pools (all bit patterns); _decode8/_decode16 hand exactly the declared slice to the decoder and require "
                   "the terminator; getString is the offset-table lookup with '' outside the table. Bounded (model-based): random XML "
                   "trees (nested elements, default/android/custom namespaces, attributes of the string/int/hex/bool/reference/"
@@ -324,3 +329,146 @@ def other_chunks(U, kind):
                   And(Eq(list(p.m_resourceIDs), [_u32(bl, 8), _u32(bl, 12), _u32(bl, 16)]), end_next))
     else:
         U.ensures("a chunk of another type / with a wrong node header size is skipped as a whole", And(end_next, p._valid))
+
+
+# ------------------------------------------------------------------------------------------------
+# Loop contracts (unbounded): the attribute loops of AXMLParser._do_next for a START_ELEMENT chunk with ANY attribute count (0..65535)
+# and any attributeSize >= 20 in a file of any length.  Ghost: POS(a) = offset of attribute a, defined by POS(0) = attributeStart,
+# POS(a+1) = POS(a) + attributeSize (instantiated where the proof touches it; no multiplication of two unknowns is needed).
+# Loop #2 (read 5 words per attribute, skip the rest of the attribute): invariant pos = POS(k), len(m_attributes) = 5k, and (Skolem
+# attribute a < k, field f) m_attributes[5a+f] = word at POS(a) + 4f.   Loop #4 (type = typed-value word >> 24): the same with field 3
+# of the attributes already visited shifted.
+import z3  # noqa: E402
+
+from pyvc import core, ubuf  # noqa: E402
+from pyvc.loops import GhostIntList, LoopSpec  # noqa: E402
+
+
+def _word(mem, addr):
+    return mem.byte(addr) | (mem.byte(addr + 1) << 8) | (mem.byte(addr + 2) << 16) | (mem.byte(addr + 3) << 24)
+
+
+class _Attrs:
+    def __init__(self, U, mem, a0, at_size):
+        self.U, self.mem, self.at_size = U, mem, at_size
+        self.f = z3.Function("POS", z3.BitVecSort(core.W), z3.BitVecSort(core.W))
+        core.ctx().add_fact(self.f(z3.BitVecVal(0, core.W)) == core.SymInt.lift(a0).t)
+
+    def POS(self, a):
+        t = self.f(core.SymInt.lift(a).t)
+        core.ctx().add_fact(z3.And(t >= 0, t <= ubuf.MAXLEN + (1 << 34)))
+        return core.SymInt(t, 0, ubuf.MAXLEN + (1 << 34))
+
+    def define_next(self, a):
+        core.ctx().add_fact((self.POS(a + 1) == self.POS(a) + self.at_size).t)
+
+    def field(self, a, f):
+        return _word(self.mem, self.POS(a) + 4 * f)
+
+
+def _alen(x):
+    return x.n if isinstance(x, GhostIntList) else len(x)
+
+
+def _apeek(x, q):
+    return x.peek(q) if isinstance(x, GhostIntList) else 0
+
+
+def _skolem_clause(spec, attrs, k_shifted):
+    """for the Skolem attribute a: its five words (field 3 shifted iff a < k_shifted)"""
+    w, a = spec.G["world"], spec.G["a"]
+    cl = []
+    for f in spec.G["fields"]:
+        want = w.field(a, f)
+        if f == 3:
+            want = Ite(a < k_shifted, want >> 24, want) if k_shifted is not None else want
+        cl.append(_apeek(attrs, 5 * a + f) == want)
+    return And(*cl)
+
+
+def _inv_read(spec, L, k):
+    s, w, a = L["self"], spec.G["world"], spec.G["a"]
+    end = s.buff.buf.length
+    # a skip read that hits the end of the data leaves the stream at the end (the next word read then fails)
+    return And(s.buff.pos == Ite(w.POS(k) <= end, w.POS(k), end), _alen(s.m_attributes) == 5 * k,
+               Implies(And(0 <= a, a < k), _skolem_clause(spec, s.m_attributes, None)))
+
+
+def _havoc_read(spec, L):
+    s = L["self"]
+    s.buff.havoc(spec.tag)
+    s.m_attributes = GhostIntList("m_attributes", 0, 0xFFFFFFFF)
+    s.m_attributes.havoc(spec.tag)
+
+
+ATTR_READ = LoopSpec("AXMLParser._do_next#2", invariant=_inv_read, const=("self",), at_havoc=_havoc_read,
+                     at_iteration=lambda s, L, k: s.G["world"].define_next(k))
+
+
+def _inv_shift(spec, L, k):
+    s, w, a = L["self"], spec.G["world"], spec.G["a"]
+    return And(_alen(s.m_attributes) == 5 * spec.G["count"], Implies(And(0 <= a, a < spec.G["count"]), _skolem_clause(spec, s.m_attributes, k)))
+
+
+def _havoc_shift(spec, L):
+    L["self"].m_attributes.havoc(spec.tag)
+
+
+ATTR_SHIFT = LoopSpec("AXMLParser._do_next#4", invariant=_inv_shift, const=("self",), at_havoc=_havoc_shift)
+
+
+@unit("C26", covers=[(AXML, "AXMLParser._do_next")],
+      loops={(AXML, "AXMLParser._do_next", 2): ATTR_READ, (AXML, "AXMLParser._do_next", 4): ATTR_SHIFT}, samples=40, max_paths=4000,
+      timeout_ms=120000, params=[{"f": f} for f in range(5)],
+      note="loop contracts on the two attribute loops: START_ELEMENT chunk with any attribute count and any attributeSize >= 20 in a "
+           "file of any length; Skolem attribute index; the typed-value word keeps only its data-type byte")
+def start_element_unbounded(U, f):
+    """f: the field (word) of the Skolem attribute this instance of the unit speaks about"""
+    m = U.mod(AXML)
+    if U.mode != "sym":
+        count = U.int("count", 0, 9)
+        at_size = 20 + 4 * U.int("pad", 0, 3)
+        words = [U.int("w%d" % i, 0, 0xFFFFFFFF) for i in range(5 * count)]
+        body = b""
+        for a in range(count):
+            body += struct.pack("<5I", *words[5 * a:5 * a + 5]) + b"\xAB" * (at_size - 20)
+        chunk = struct.pack("<HHIII", 0x0102, 0x10, 36 + len(body), 7, 0xFFFFFFFF) + struct.pack("<IIHHHHHH", 1, 2, 0x14, at_size, count, 0, 0, 0) + body
+        data = bytes(8) + chunk
+        p = _parser(U, m, data, 8, len(data) + 100)
+        o = U.call(p._do_next)
+        U.ensures("does not raise", o.ok, exc=repr(o.exc))
+        if o.ok:
+            want = [w >> 24 if i % 5 == 3 else w for i, w in enumerate(words)]
+            U.ensures("five words per attribute, read at attributeStart + a * attributeSize, the fourth reduced to its data type",
+                      list(p.m_attributes) == want and p.m_event == m.START_TAG and p.buff.tell() == len(data), got=list(p.m_attributes)[:10])
+        return
+    mem = ubuf.SymMem("file")
+    buf = ubuf.SymBuf(mem, 0, U.int("len", 0, ubuf.MAXLEN))
+    p0 = U.int("p0", 8, ubuf.MAXLEN)
+    U.assume(p0 + 36 <= buf.length)
+    U.assume(And(mem.byte(p0) == 0x02, mem.byte(p0 + 1) == 0x01, mem.byte(p0 + 2) == 0x10, mem.byte(p0 + 3) == 0x00))   # START_ELEMENT, node header 16
+    size = _word(mem, p0 + 4)
+    U.assume(size >= 0x10)
+    at_size = mem.byte(p0 + 26) | (mem.byte(p0 + 27) << 8)
+    U.assume(at_size >= 20)
+    count = mem.byte(p0 + 28) | (mem.byte(p0 + 29) << 8)
+    a = U.int("a", 0, 65535)
+    world = _Attrs(U, mem, p0 + 36, at_size)
+    for sp in (ATTR_READ, ATTR_SHIFT):
+        sp.G = {"U": U, "world": world, "a": a, "count": count, "fields": [f]}
+    p = object.__new__(m.AXMLParser)
+    p._valid, p.axml_tampered = True, False
+    p.buff = ubuf.SymStreamU(buf, p0, "buff")
+    p.buff_size, p.filesize = buf.length, buf.length + 1
+    p.sb, p.m_resourceIDs, p.namespaces, p.m_event = _SB(), [], [], -1
+    p._reset()
+    o = U.call(p._do_next)
+    if not o.ok:
+        U.ensures("the only failure is the end of the data (struct.error)", o.raised(m.__pyvc_struct__.error), exc=repr(o.exc))
+        return
+    U.cover("the chunk is parsed")
+    U.ensures("event START_TAG, attribute count as declared, five words per attribute",
+              And(p.m_event == m.START_TAG, p.m_attribute_count == count, _alen(p.m_attributes) == 5 * count))
+    U.ensures("attribute a is read at attributeStart + a * attributeSize: namespace, name, raw value, data type (high byte of the "
+              "typed-value word), data", Implies(a < count, _skolem_clause(ATTR_SHIFT, p.m_attributes, count)))
+    U.ensures("the parser is positioned at the end of the chunk", p.buff.pos == p0 + size)
